@@ -178,11 +178,12 @@ def _judge(case, cfg, sol, obs_times, filt, sigmas, final_scale, how_ended, tags
     if post is not None:
         means_mp, cov_mp = extract.markov_joint_mp(post, d)  # 50 digits: the float64 recursion loses precision
         means = [mpl.F(x) for x in means_mp]
+        joint_noise = extract.markov_joint_mp.mean_noise
         cov = {kk: mpl.F(vv) for kk, vv in cov_mp.items() if kk[1] - kk[0] <= 1}
         for i in range(T):
             m, P = extract.normal_dense(extract.tree_index(sol.u, i))
             dref = np.maximum(np.sqrt(np.maximum(np.diag(P), 0)), floors[i])
-            em = float(np.max(np.abs(means[i] - m) / (np.abs(m) + dref + 1e-300)))
+            em = TOL * float(np.max(np.abs(means[i] - m) / (TOL * (np.abs(m) + dref) + joint_noise[i] + 1e-300)))
             ec = float(np.max(np.abs(cov[(i, i)] - P) / np.outer(dref, dref)))
             C.obs["max_dev_factorisation_marginal"] = max(C.obs.get("max_dev_factorisation_marginal", 0.0), em, ec)
             if not (em <= TOL and ec <= TOL):
